@@ -176,6 +176,8 @@ type Inst struct {
 	VotesSent []int        // event indices of votes sent
 	Results   []string     // per event: "ok", "orphan", "err:<msg>"
 	Hung      bool
+	// checkpoints whose cached votes the node replays because of the event just applied
+	replayTargets []int
 }
 
 // NewInst starts a fresh node.
@@ -268,6 +270,13 @@ func plainCopy(b *types.Block) *types.Block {
 func (in *Inst) Apply(ei int) string {
 	e := in.W.Events[ei]
 	res := ""
+	in.replayTargets = nil
+	before := map[int]bool{}
+	if e.Kind == EvBlock || e.Kind == EvBlockSL {
+		for i := range in.W.Blocks {
+			before[i] = in.Stored(i)
+		}
+	}
 	switch e.Kind {
 	case EvBlock, EvBlockSL:
 		var blk *types.Block
@@ -315,6 +324,15 @@ func (in *Inst) Apply(ei int) string {
 			res = "ok"
 		}
 	}
+	if e.Kind == EvBlock || e.Kind == EvBlockSL {
+		// the first block of an epoch that got connected by this event makes the node replay the votes cached
+		// for its parent checkpoint (asynchronously): those are the only replays to wait for
+		for i := range in.W.Blocks {
+			if !before[i] && in.W.Blocks[i].Height%in.W.Net.E == 1 && in.Stored(i) && in.W.Parent[i] >= 0 {
+				in.replayTargets = append(in.replayTargets, in.W.Parent[i])
+			}
+		}
+	}
 	if !in.Hung {
 		in.Quiesce()
 	}
@@ -333,20 +351,23 @@ func errClass(err error) string {
 	return s
 }
 
-// Quiesce waits until the cached-vote replay loop has nothing left to do.
+// Quiesce waits until the cached-vote replay loop has finished the replays triggered by the event just applied.
+// (A vote cached for a checkpoint whose epoch notification has already passed stays cached; that is not activity.)
 func (in *Inst) Quiesce() {
 	c := in.Node.Chain.VerifCasper()
 	deadline := time.Now().Add(CallTimeout)
 	for {
 		busy := c.VerifPendingEpochs() > 0
 		if !busy {
-			// a cached vote for a checkpoint whose child block is connected will be replayed
 			for _, ei := range in.VotesSent {
 				e := in.W.Events[ei]
-				if !in.childConnected(e.Tgt) {
-					continue
+				waited := false
+				for _, t := range in.replayTargets {
+					if t == e.Tgt {
+						waited = true
+					}
 				}
-				if in.W.ValidatorOrder(e.Tgt, e.Val) < 0 {
+				if !waited || in.W.ValidatorOrder(e.Tgt, e.Val) < 0 {
 					continue
 				}
 				if c.VerifIsCached(in.W.Blocks[e.Tgt].Hash(), in.W.Net.Pubs[e.Val].String()) {
